@@ -32,6 +32,8 @@ import TableauVerif.Model.EnumLit
 import TableauVerif.Spec.C03Enum
 import TableauVerif.Spec.C20Dur
 import TableauVerif.Model.Importer
+import TableauVerif.Model.Rfc3339
+import TableauVerif.Model.CSV
 import TableauVerif.Spec.Grid
 namespace Driver
 open TableauVerif TableauVerif.Model
@@ -355,6 +357,8 @@ def c20 (fn : String) (a : List String) : Option String := do
   | "o.c20.dur", [raw, obs] => some (Spec.C20Dur.holdsDur (← decStr? raw) (← decDRes? obs))
   | "c20.ts", [_name, zone, raw] => some (encTRes (Time.parseTimestamp (← decZone? zone) (← decStr? raw)))
   | "c20.gen", [_loc, _machine, _eff, zone, raw] => some (encTRes (Time.parseTimestamp (← decZone? zone) (← decStr? raw)))
+  | "c20.emitts", [_name, zone, t, n] =>
+    some (encStr (Rfc3339.format (← decZone? zone) (← decInt? t) (← decNat? n)))
   | "c20.emitz", [_loc, _machine, _eff, zone, raw] =>
     let z ← decZone? zone
     some (match Time.parseTimestamp z (← decStr? raw) with
@@ -395,8 +399,14 @@ def c04 (fn : String) (a : List String) : Option String := do
     some (if v % 2 == 1 && named == "0" then "same err" else "same ok")
   | "o.c04.det", [_, _, _, obs] => some (if obs.startsWith "same " then "holds" else "FAILS")
   | "c06.squeeze", [t] => some (encStr (TextFmt.squeeze (← decStr? t)))
-  | "c06.rt", _ => some "json=1 text=1 bin=1"     -- the three files decode to the message (codecs: trusted laws; squeeze: C06_squeeze_keeps_literals)
-  | "o.c06.rt", args => some (if args.getLast? == some "json=1 text=1 bin=1" then "holds" else "FAILS")
+  | "c06.rt", mask :: _ =>
+    -- the three files decode to the message (codecs: trusted laws; squeeze: C06_squeeze_keeps_literals); with
+    -- EmitTimezones (mask bit 16) every Timestamp is shown as the same instant with the location's offset
+    let m ← decNat? mask
+    some ("json=1 text=1 bin=1 tz=" ++ (if m / 16 % 2 == 1 then "1" else "-"))
+  | "o.c06.rt", mask :: rest =>
+    let m ← decNat? mask
+    some (if rest.getLast? == some ("json=1 text=1 bin=1 tz=" ++ (if m / 16 % 2 == 1 then "1" else "-")) then "holds" else "FAILS")
   | "c16.hist", _ => some "same"      -- C16_refines: every call behaves as in a fresh process
   | "o.c16.hist", args => some (if args.getLast? == some "same" then "holds" else "FAILS")
   | _, _ => none
@@ -438,7 +448,11 @@ def imp (fn : String) (a : List String) : Option String := do
     let rows ← decGrid? g
     let out := if style == "xlsx" then Importer.xlsxGrid rows else Importer.csvGrid (style == "csv-all") rows
     some ("rows " ++ encGrid out)
-  | "o.imp.grid", [style, g, obs] =>
+  | "imp.csvtext", [t] =>
+    some (match CSV.readRows (← decStr? t) with
+      | some rows => "rows " ++ encGrid rows
+      | none => "err")
+  | "o.imp.grid", [_style, g, obs] =>
     let rows ← decGrid? g
     if !obs.startsWith "rows " then some "FAILS" else
     let got ← decGrid? (obs.drop 5).toString
